@@ -186,6 +186,24 @@ def run_item(item):
                     if mode == "copy" and norm(snap(src0)) != base:
                         V(f"followup-changed-source:{op[0]}", f"follow-up {op} on the relabelled COPY changed the source graph in "
                           f"{diff(norm(snap(src0)), base)}", mode=mode)
+            if mtype in ("total-shift", "total-pool", "partial-swap") and mp:
+                # the mapping with numpy-typed values (np.arange / np.argsort), then back with the numpy-keyed inverse: the graph
+                # must come back exactly (== and hash are not asked of the numpy-labelled intermediate)
+                import numpy as np
+
+                for mode in ("copy", "inplace"):
+                    try:
+                        g = U.build(m)
+                        h = g.relabel_atoms({k: np.int64(v) for k, v in mp.items()}, copy=(mode == "copy"))
+                        h2 = h.relabel_atoms({np.int64(v): k for k, v in mp.items()}, copy=(mode == "copy"))
+                        out["evals"] += 1
+                        oc["numpy-roundtrip"] = oc.get("numpy-roundtrip", 0) + 1
+                        back = norm(snap(h2))
+                        if back != base:
+                            V("numpy-roundtrip:" + "+".join(diff(back, base)), "relabelling with numpy-typed values and back with the "
+                              "numpy-keyed inverse did not restore the original", mode=mode)
+                    except Exception as e:
+                        V("numpy-roundtrip-raised:" + type(e).__name__, f"{e!r}", mode=mode)
             if len(results) == 2 and results["copy"] != results["inplace"]:
                 V("copy-vs-inplace", f"copy and in-place results differ in {diff(results['copy'], results['inplace'])}")
         if not out["samples"]:
